@@ -1039,6 +1039,9 @@ func parse_process_loop(tokens []*Token, index int) (AstProcessStatement, int, e
 
 func parse_process_expression(tokens []*Token, index int) (AstProcessExpression, int, error) {
 	exprTokens, next_index := getProcessExpressionTokens(tokens, index)
+	if len(exprTokens) == 0 {
+		return nil, index, NewParseError(tokens[index], "Unexpected token. Expected an expression")
+	}
 	expr, fail_index, err := parse_expr_pratt(exprTokens, 0, 0)
 	if err != nil {
 		return nil, index + fail_index, err
@@ -1049,6 +1052,9 @@ func parse_process_expression(tokens []*Token, index int) (AstProcessExpression,
 func parse_expr_pratt(tokens []*Token, index int, minPrecedence int) (AstProcessExpression, int, error) {
 	token_index := index + 1
 	var lhs AstProcessExpression
+	if index >= len(tokens) {
+		return nil, index, NewParseError(tokens[len(tokens)-1], "Unexpected end of expression. Expected string, number, variable, or unary operator")
+	}
 	if tokens[index].TokenType == STRING {
 		lhs = AstProcessString{tokens[index].Lexeme}
 	} else if tokens[index].TokenType == TRUE {
@@ -1068,8 +1074,8 @@ func parse_expr_pratt(tokens []*Token, index int, minPrecedence int) (AstProcess
 		if err != nil {
 			return nil, next_index, err
 		}
-		if tokens[next_index].TokenType != CLOSEPAREN {
-			return nil, next_index, err
+		if next_index >= len(tokens) || tokens[next_index].TokenType != CLOSEPAREN {
+			return nil, next_index, NewParseError(tokens[len(tokens)-1], "Unexpected end of expression. Expected ')'")
 		}
 		token_index = next_index + 1
 		lhs = subexpr
